@@ -134,11 +134,11 @@ PLAN = {
                  "establish or preserve the invariant and denote exactly the concatenated text for every piece division (all four representation combinations of append, shared piece tables through Rc::make_mut); "
                  "len() is the text's length; get_byte(i) is Some(text[i]) exactly for i < len; get_byte_slice_impl / get_byte_slice / byte_slice return the sub-text exactly for ranges that are in order, in bounds and on char "
                  "boundaries of the TEXT (char boundaries of a piece are char boundaries of the text and vice versa: UTF-8 lemmas over vstd) and None/Err exactly otherwise, for every kind of range bound; no overflow, underflow or "
-                 "out-of-range index on that path. byte_slice_unchecked returns the same sub-text on every call that keeps its documented contract. Not decided: from_iter, lines, char_indices, starts_with, ends_with, equality, hash, to_string, to_bytes.",
+                 "out-of-range index on that path. byte_slice_unchecked returns the same sub-text on every call that keeps its documented contract. to_bytes() and to_string() render exactly the denoted text; `rope == str` never slices out of range (its answer is not decided: vstd does not specify == on byte slices). Not decided: from_iter, lines, char_indices, starts_with, ends_with, is_empty, the answers of the equality impls, hash.",
         "note": "Partial. Trusted: Verus/Z3/vstd, extraction rules, the assume_specifications and two axioms listed in the evidence; get_byte additionally relies on the pinned std's binary_search_by returning the last match.",
         "trusted_base": TB_VERUS + TB_ROPE,
         "assumptions": ["total rope length fits usize (requires of add/append)", "binary_search_by returns the last of several equal elements (pinned std; used by get_byte only)"],
-        "not_covered": ["Rope::from_iter (iterator adapter chain)", "Lines / CharIndices iterators", "starts_with / ends_with / PartialEq / Hash / to_string / to_bytes"],
+        "not_covered": ["Rope::from_iter (iterator adapter chain)", "Lines / CharIndices iterators", "starts_with / ends_with / is_empty / Hash / the answers of PartialEq (only PartialEq<str> is shown panic-free)"],
         "design_ref": "DESIGN.md §4/C16",
     },
     "C14": {
